@@ -13,18 +13,34 @@ build_s() {
   (cd h && go build -o ../bin/verifs ./cmd/verifs) || { echo "HARNESS-ERROR: tier-S build failed (does /repo still compile?)"; exit 3; }
 }
 
+# overlay_test <name> <repo pkg dir> <TestFunc>: compile an in-package test whose
+# source lives in overlay/<name>_test.go.txt into bin/<name>.test and run it
+overlay_test() {
+  local name="$1" pkg="$2" fn="$3"
+  cp /repo/go.sum h/go.sum 2>/dev/null
+  printf '{"Replace":{"/repo/%s/zz_verif_%s_test.go":"%s/overlay/%s_test.go.txt"}}' "$pkg" "$name" "$VERIF_ROOT" "$name" > "bin/ov_$name.json"
+  (cd h && go test -c -overlay "../bin/ov_$name.json" -vet=off -o "../bin/$name.test" "github.com/simpleiot/simpleiot/$pkg") || { echo "HARNESS-ERROR: overlay test build failed for $name"; exit 3; }
+  VERIF_TIER="$tier" exec "bin/$name.test" -test.run "^${fn}\$" -test.timeout 0
+}
+
 case "${1:-}" in
   setup)
     build_s
     exit 0;;
   replay)
-    build_s
-    exec bin/verifs replay "$2";;
+    prop=$(jq -r .property "$2")
+    tier=quick
+    case "$prop" in
+      C14) VERIF_REPLAY="$(realpath "$2")" overlay_test c14 client TestVerifC14;;
+      *) build_s; exec bin/verifs replay "$2";;
+    esac;;
 esac
 
 id="$1"; tier="${2:-quick}"
 case "$id" in
-  C10|C11|C12|C14|C16|C17|C18|C19)
+  C14)
+    overlay_test c14 client TestVerifC14;;
+  C10|C11|C12|C16|C17|C18|C19)
     build_s
     exec bin/verifs "$id" "$tier";;
   *) echo "HARNESS-ERROR: unknown property $id"; exit 3;;
